@@ -57,6 +57,7 @@ class Ana:
         self.Gs = self.nums['G']
         self.dt = [None] * tr.n        # dt in force for the step (k-1 -> k)
         self.first_of_run = set()
+        self.run_start_pwm = {r['n0']: r['pwm_before'] for r in runs if not r['fresh']}
         self.regime = ['run'] * tr.n
         for i, r in enumerate(runs):
             for k in range(r['n0'], r['n1']):
@@ -112,9 +113,12 @@ class Ana:
                 if True in prev and self.L['torque'][k - 1] == 0:
                     prev = {True, False}          # all-zero instant that a free drivetrain produces too
                 Tp = MT[k - 1]
-                st, info = RL.step(sl, D[k - 1], w_adv, Tp, prev, w0)
-                info['D'] = D[k - 1]
-                if sl and not info['engage'] and not info['near'] and abs(Tp) < 1e-9 * Tmax and D[k - 1] != 0:
+                Din = D[k - 1]
+                if k in self.run_start_pwm:
+                    Din = self.run_start_pwm[k]      # the user may have changed the duty cycle between two runs
+                st, info = RL.step(sl, Din, w_adv, Tp, prev, w0)
+                info['D'] = Din
+                if sl and not info['engage'] and not info['near'] and abs(Tp) < 1e-9 * Tmax and Din != 0:
                     st = st | prev               # release decision within rounding distance of zero torque
                     info['near'] = True
             self.states[k] = st
